@@ -13,6 +13,8 @@
       as soon as [n] were read - also when [n = 0], i.e. it always reads at least one token if
       there is one; then [Token::eoi(MAX)] fillers), [ensure_buffer], [lookahead] /
       [lookahead_token_type], [take_skip_tokens], [consume], [all_input_consumed].
+      [stream_new] is the current constructor ([TokenIter] created with [max(1,k)]),
+      [stream_new_old] the one of the pinned commit ([TokenIter] created with the caller's [k]).
       The recovery-only operations ([replace_token_type_at], [insert_token_at],
       [remove_token_at], [enter_recovery_mode]) are not part of this file ([s_recovering] stays
       [false]; the LL recovery is modelled in Runtime/LLParser.v on significant tokens).
@@ -20,9 +22,12 @@
 
     Which predicate is used where (Rust):
       [is_effectively_skip_token]  everywhere in [TokenBuffer] and in [TokenStream::read_tokens];
-      [is_skip_token]              [TokenIter::token_from_match] (token numbering) and
-                                   [LRParser::call_action] (TWICE: the [pop_n] predicate and the
-                                   filter that builds the action's arguments);
+      [is_skip_token]              [TokenIter::token_from_match] (token numbering); at the PINNED
+                                   COMMIT also [LRParser::call_action] (TWICE: the [pop_n]
+                                   predicate and, via [LRParseTree::is_skip_token], the filter
+                                   that builds the action's arguments) - defect D9, repaired
+                                   since: both places now use [is_effectively_skip_token]
+                                   ([lr_skip_pred] / [lr_skip_pred_old] below);
       [is_comment_token]           [handle_additional_tokens] of both parsers, [token_from_match].
     The LL parser never looks at skip predicates itself: its parse tree stack only receives
     consumed tokens and non-terminals. *)
@@ -257,10 +262,20 @@ Definition all_input_consumed (st : stream) : bool :=
 Variable len : N.
 Variable final_mode : N.
 
-(** [TokenStream::new_with_skip_tokens(input, .., k0, skips)] on the scanner output [ms]. *)
+(** A stream with lookahead size [k] over a [TokenIter] created with [ki]; the buffer is filled
+    at once ([read_tokens(k)]). *)
+Definition stream_init (ms : list smatch) (k ki : nat) : stream :=
+  read_tokens k (mkStream k (token_iter len final_mode ms ki) buf_new false).
+
+(** [TokenStream::new_with_skip_tokens(input, .., k0, skips)] on the scanner output [ms]:
+    [let k = max(1, k0)] comes first, the [TokenIter] and the stream both get [k]. *)
 Definition stream_new (ms : list smatch) (k0 : nat) : stream :=
-  let k := Nat.max 1 k0 in
-  read_tokens k (mkStream k (token_iter len final_mode ms k0) buf_new false).
+  stream_init ms (Nat.max 1 k0) (Nat.max 1 k0).
+
+(** The same at the pinned commit: the [TokenIter] got the caller's [k0] (possibly 0), only the
+    stream used [max(1, k0)]. *)
+Definition stream_new_old (ms : list smatch) (k0 : nat) : stream :=
+  stream_init ms (Nat.max 1 k0) k0.
 
 (** ** Schedules *)
 Definition step (st : stream) (o : op) : stream * event :=
@@ -563,22 +578,30 @@ Proof.
     rewrite H1, I1. split; [reflexivity|split; assumption].
 Qed.
 
-Lemma stream_new_rel ms k0 :
-  Rel (stream_new ms k0) (stream_tokens skips len final_mode ms k0) /\
-  Full (Nat.max 1 k0) (stream_new ms k0).
+Lemma stream_init_rel ms k ki : (1 <= k)%nat ->
+  Rel (stream_init ms k ki) (stream_tokens_old skips len final_mode ms ki) /\
+  Full k (stream_init ms k ki).
 Proof.
-  unfold stream_new.
-  set (k := Nat.max 1 k0).
-  set (st0 := mkStream k (token_iter len final_mode ms k0) buf_new false).
-  assert (HR0 : Rel st0 (stream_tokens skips len final_mode ms k0)).
+  intros Hk1. unfold stream_init.
+  set (st0 := mkStream k (token_iter len final_mode ms ki) buf_new false).
+  assert (HR0 : Rel st0 (stream_tokens_old skips len final_mode ms ki)).
   { exists O. split; [|intros H; exfalso; apply H; reflexivity].
     unfold pending_of, st0; cbn [s_buf s_iter buf_new b_toks b_last_loc b_last_num app repeat].
     rewrite app_nil_r. reflexivity. }
-  assert (Hk1 : (1 <= k)%nat) by (unfold k; lia).
   destruct (read_tokens_rel k st0 _ Hk1 HR0) as (R1 & R2 & R3).
   split; [exact R1|]. unfold Full. rewrite R2, R3.
   change (buf_len (s_buf st0)) with O. change (s_k st0) with k. repeat split; lia.
 Qed.
+
+Lemma stream_new_rel ms k0 :
+  Rel (stream_new ms k0) (stream_tokens skips len final_mode ms k0) /\
+  Full (Nat.max 1 k0) (stream_new ms k0).
+Proof. apply stream_init_rel. lia. Qed.
+
+Lemma stream_new_old_rel ms k0 :
+  Rel (stream_new_old ms k0) (stream_tokens_old skips len final_mode ms k0) /\
+  Full (Nat.max 1 k0) (stream_new_old ms k0).
+Proof. apply stream_init_rel. lia. Qed.
 
 (** The buffered stream with lookahead size [max(1,k0)] behaves exactly like the buffer-less
     specification on [stream_tokens]. *)
@@ -587,6 +610,14 @@ Theorem stream_refines_spec ms k0 ops :
   spec_run (Nat.max 1 k0) (stream_tokens skips len final_mode ms k0) ops.
 Proof.
   destruct (stream_new_rel ms k0) as (HR & HF).
+  apply (run_refines ops _ _ _ HR HF).
+Qed.
+
+Theorem stream_refines_spec_old ms k0 ops :
+  run (stream_new_old ms k0) ops =
+  spec_run (Nat.max 1 k0) (stream_tokens_old skips len final_mode ms k0) ops.
+Proof.
+  destruct (stream_new_old_rel ms k0) as (HR & HF).
   apply (run_refines ops _ _ _ HR HF).
 Qed.
 
@@ -642,20 +673,20 @@ Proof.
       * apply Hm2. discriminate.
 Qed.
 
-(** [buffer_contiguous]: for every lookahead size [k0 >= 1] and every schedule, the tokens ever
+(** [buffer_contiguous]: for every lookahead size [k0] and every schedule, the tokens ever
     delivered are: a part [d0] of [all_tokens ++ eoi_tokens] (the end-of-input tokens are empty
     tokens at [len]) possibly followed by [eoi_filler]s; [d0] is contiguous from offset 0 and
     what was not yet delivered continues contiguously up to [len]. *)
 Theorem buffer_contiguous skips len fm ms k0 ops :
-  (1 <= k0)%nat -> matches_ok len ms = true ->
+  matches_ok len ms = true ->
   exists d0 j rest,
     delivered (run skips (stream_new skips len fm ms k0) ops) = d0 ++ repeat eoi_filler j /\
     d0 ++ rest = all_tokens skips len ms ++ eoi_tokens skips len fm ms k0 /\
     (j <> O -> rest = []) /\
     exists b, chain 0 d0 b /\ chain b rest len.
 Proof.
-  intros Hk Hok. rewrite stream_refines_spec.
-  pose proof (stream_tokens_eq skips len fm ms k0 Hk) as Heq.
+  intros Hok. rewrite stream_refines_spec.
+  pose proof (stream_tokens_eq skips len fm ms k0) as Heq.
   set (p := stream_tokens skips len fm ms k0) in *.
   destruct (spec_delivered ops (Nat.max 1 k0) p) as (m & H & Hm).
   assert (Hchain : chain 0 p len).
@@ -766,45 +797,47 @@ Proof.
     rewrite T1, T2, D1, D2. f_equal. apply IH; assumption.
 Qed.
 
-Lemma eoi_tokens_plain skips len fm ms k0 :
-  is_state_skip skips EOI fm = false -> Forall eoi_plain (eoi_tokens skips len fm ms k0).
+Lemma eoi_tokens_old_plain skips len fm ms k0 :
+  is_state_skip skips EOI fm = false -> Forall eoi_plain (eoi_tokens_old skips len fm ms k0).
 Proof.
-  intros H. unfold eoi_tokens. generalize (iter_num ms 0).
+  intros H. unfold eoi_tokens_old. generalize (iter_num ms 0).
   induction k0 as [|k0 IH]; intros num; cbn [iter_eois map]; constructor.
   - split; [reflexivity|]. cbn. exact H.
   - apply IH.
 Qed.
 
-(** [stream_k_independent]: for all lookahead sizes [k1, k2 >= 1] and every schedule (whose
+Lemma eoi_tokens_plain skips len fm ms k0 :
+  is_state_skip skips EOI fm = false -> Forall eoi_plain (eoi_tokens skips len fm ms k0).
+Proof. apply eoi_tokens_old_plain. Qed.
+
+(** [stream_k_independent]: for all lookahead sizes [k1, k2] and every schedule (whose
     lookahead indices are legal for both), the results of all calls are the same - up to the
     location/number of end-of-input tokens - and they are those of the buffer-less specification
     on [all_tokens ++ eoi_tokens] ([stream_refines_spec], [stream_tokens_eq]).
     Hypothesis: the end-of-input terminal is not in the skip list of the final scanner mode (it
     cannot be named in a parol grammar). *)
 Theorem stream_k_independent skips len fm ms k1 k2 ops :
-  (1 <= k1)%nat -> (1 <= k2)%nat ->
   is_state_skip skips EOI fm = false ->
-  (forall n, In (OpLookahead n) ops -> (n < k1)%nat /\ (n < k2)%nat) ->
+  (forall n, In (OpLookahead n) ops -> (n < Nat.max 1 k1)%nat /\ (n < Nat.max 1 k2)%nat) ->
   map norm_event (run skips (stream_new skips len fm ms k1) ops) =
   map norm_event (run skips (stream_new skips len fm ms k2) ops).
 Proof.
-  intros Hk1 Hk2 Hskip Hn. rewrite !stream_refines_spec.
-  rewrite (stream_tokens_eq skips len fm ms k1 Hk1), (stream_tokens_eq skips len fm ms k2 Hk2).
-  replace (Nat.max 1 k1) with k1 by lia. replace (Nat.max 1 k2) with k2 by lia.
+  intros Hskip Hn. rewrite !stream_refines_spec.
+  rewrite (stream_tokens_eq skips len fm ms k1), (stream_tokens_eq skips len fm ms k2).
   apply spec_eoi_sim; try assumption; apply eoi_tokens_plain; exact Hskip.
 Qed.
 
 (** The delivered tokens are a prefix of the fixed sequence [all_tokens ++ eoi_tokens ++
-    fillers], for every [k0 >= 1] and every schedule. *)
-Theorem delivered_prefix skips len fm ms k0 ops : (1 <= k0)%nat ->
+    fillers], for every [k0] and every schedule. *)
+Theorem delivered_prefix skips len fm ms k0 ops :
   exists m,
     delivered (run skips (stream_new skips len fm ms k0) ops) ++
     spec_state (Nat.max 1 k0) (stream_tokens skips len fm ms k0) ops
     = all_tokens skips len ms ++ eoi_tokens skips len fm ms k0 ++ repeat eoi_filler m.
 Proof.
-  intros Hk. rewrite stream_refines_spec.
+  rewrite stream_refines_spec.
   destruct (spec_delivered ops (Nat.max 1 k0) (stream_tokens skips len fm ms k0)) as (m & H & _).
-  exists m. rewrite H, (stream_tokens_eq skips len fm ms k0 Hk), app_assoc. reflexivity.
+  exists m. rewrite H, (stream_tokens_eq skips len fm ms k0), app_assoc. reflexivity.
 Qed.
 
 (** ** When everything was delivered *)
@@ -871,18 +904,22 @@ Proof.
   cbn [last]. cbn [last] in IH. exact IH.
 Qed.
 
-Lemma eoi_tokens_types skips len fm ms k0 :
-  Forall (fun x => t_type x = EOI) (eoi_tokens skips len fm ms k0).
+Lemma eoi_tokens_old_types skips len fm ms k0 :
+  Forall (fun x => t_type x = EOI) (eoi_tokens_old skips len fm ms k0).
 Proof.
-  unfold eoi_tokens. generalize (iter_num ms 0).
+  unfold eoi_tokens_old. generalize (iter_num ms 0).
   induction k0 as [|k0 IH]; intros num; cbn [iter_eois map]; constructor; [reflexivity|apply IH].
 Qed.
+
+Lemma eoi_tokens_types skips len fm ms k0 :
+  Forall (fun x => t_type x = EOI) (eoi_tokens skips len fm ms k0).
+Proof. apply eoi_tokens_old_types. Qed.
 
 (** Both parsers finish with [handle_additional_tokens] and a look at the first remaining
     token ([all_input_consumed] / the [Accept] action on end of input).  If that token is the
     end of input, ALL tokens were delivered: the delivered tokens are [all_tokens] followed by
     end-of-input tokens only (those the parser consumed before, normally none). *)
-Theorem delivered_complete skips len fm ms k0 ops t : (1 <= k0)%nat -> types_ok ms = true ->
+Theorem delivered_complete skips len fm ms k0 ops t : types_ok ms = true ->
   last (run skips (stream_new skips len fm ms k0) (ops ++ [OpTakeSkip; OpLookahead 0])) (EvSkip [])
     = EvLook (inr t) ->
   t_type t = EOI ->
@@ -891,8 +928,8 @@ Theorem delivered_complete skips len fm ms k0 ops t : (1 <= k0)%nat -> types_ok 
       = all_tokens skips len ms ++ e0 /\
     Forall (fun x => t_type x = EOI) e0.
 Proof.
-  intros Hk Hty Hlast Ht. rewrite stream_refines_spec in Hlast. rewrite stream_refines_spec.
-  pose proof (stream_tokens_eq skips len fm ms k0 Hk) as Heq.
+  intros Hty Hlast Ht. rewrite stream_refines_spec in Hlast. rewrite stream_refines_spec.
+  pose proof (stream_tokens_eq skips len fm ms k0) as Heq.
   pose proof (eoi_tokens_types skips len fm ms k0) as Heois0.
   set (p := stream_tokens skips len fm ms k0) in *. set (k := Nat.max 1 k0) in *.
   rewrite spec_run_app in Hlast. rewrite spec_run_app, delivered_app.
@@ -965,16 +1002,16 @@ Proof.
   unfold is_comment_token. rewrite Hx. cbn. exact IH.
 Qed.
 
-(** [comments_once_in_order]: for every [k0 >= 1] and every schedule, the sequence of tokens
+(** [comments_once_in_order]: for every [k0] and every schedule, the sequence of tokens
     handed to [on_comment] followed by the comments among the tokens not yet delivered is the
     list of all comment tokens of the input, in input order: every comment the parse reaches is
     reported exactly once, in order, none is invented. *)
-Theorem comments_once_in_order skips len fm ms k0 ops : (1 <= k0)%nat ->
+Theorem comments_once_in_order_all_k skips len fm ms k0 ops :
   comment_trace (run skips (stream_new skips len fm ms k0) ops) ++
   comments_of (spec_state (Nat.max 1 k0) (stream_tokens skips len fm ms k0) ops)
   = comments_of (all_tokens skips len ms).
 Proof.
-  intros Hk. destruct (delivered_prefix skips len fm ms k0 ops Hk) as (m & H).
+  destruct (delivered_prefix skips len fm ms k0 ops) as (m & H).
   rewrite stream_refines_spec in H. rewrite stream_refines_spec, spec_comment_trace.
   rewrite <- comments_of_app, H, !comments_of_app.
   rewrite (comments_of_eois (eoi_tokens skips len fm ms k0) (eoi_tokens_types skips len fm ms k0)).
@@ -982,19 +1019,35 @@ Proof.
   apply Forall_forall. intros x Hx. apply in_repeat in Hx. subst x. reflexivity.
 Qed.
 
+(** The statement as first pinned; since [TokenStream::new] hands [max(1,k)] to the iterator the
+    hypothesis [1 <= k0] is no longer needed ([comments_once_in_order_all_k]). *)
+Theorem comments_once_in_order skips len fm ms k0 ops : (1 <= k0)%nat ->
+  comment_trace (run skips (stream_new skips len fm ms k0) ops) ++
+  comments_of (spec_state (Nat.max 1 k0) (stream_tokens skips len fm ms k0) ops)
+  = comments_of (all_tokens skips len ms).
+Proof. intros _. apply comments_once_in_order_all_k. Qed.
+
 (** ... and all of them when the parse reached the end of the input. *)
-Theorem comments_all_delivered skips len fm ms k0 ops t : (1 <= k0)%nat -> types_ok ms = true ->
+Theorem comments_all_delivered_all_k skips len fm ms k0 ops t : types_ok ms = true ->
   last (run skips (stream_new skips len fm ms k0) (ops ++ [OpTakeSkip; OpLookahead 0])) (EvSkip [])
     = EvLook (inr t) ->
   t_type t = EOI ->
   comment_trace (run skips (stream_new skips len fm ms k0) (ops ++ [OpTakeSkip; OpLookahead 0]))
   = comments_of (all_tokens skips len ms).
 Proof.
-  intros Hk Hty Hlast Ht.
-  destruct (delivered_complete skips len fm ms k0 ops t Hk Hty Hlast Ht) as (e0 & H & He0).
+  intros Hty Hlast Ht.
+  destruct (delivered_complete skips len fm ms k0 ops t Hty Hlast Ht) as (e0 & H & He0).
   rewrite stream_refines_spec in H. rewrite stream_refines_spec, spec_comment_trace, H.
   rewrite comments_of_app, (comments_of_eois e0 He0), app_nil_r. reflexivity.
 Qed.
+
+Theorem comments_all_delivered skips len fm ms k0 ops t : (1 <= k0)%nat -> types_ok ms = true ->
+  last (run skips (stream_new skips len fm ms k0) (ops ++ [OpTakeSkip; OpLookahead 0])) (EvSkip [])
+    = EvLook (inr t) ->
+  t_type t = EOI ->
+  comment_trace (run skips (stream_new skips len fm ms k0) (ops ++ [OpTakeSkip; OpLookahead 0]))
+  = comments_of (all_tokens skips len ms).
+Proof. intros _. apply comments_all_delivered_all_k. Qed.
 
 (** ** The parser input as a function of the scanner output *)
 Definition type_is_skip (ty : N) : bool :=
@@ -1052,16 +1105,16 @@ Proof.
 Qed.
 
 (** The significant part of the stream: [parser_input] followed by [k0] end-of-input tokens. *)
-Lemma stream_view_types skips len fm ms k0 : (1 <= k0)%nat -> is_state_skip skips EOI fm = false ->
+Lemma stream_view_types skips len fm ms k0 : is_state_skip skips EOI fm = false ->
   map t_type (filter significant (stream_tokens skips len fm ms k0)) =
-  parser_input skips ms ++ repeat EOI k0.
+  parser_input skips ms ++ repeat EOI (Nat.max 1 k0).
 Proof.
-  intros Hk Hs. rewrite (stream_tokens_eq skips len fm ms k0 Hk), filter_app, map_app.
+  intros Hs. rewrite (stream_tokens_eq skips len fm ms k0), filter_app, map_app.
   fold (significant_tokens skips len ms). rewrite parser_input_spec. f_equal.
   rewrite (filter_sig_plain _ (eoi_tokens_plain skips len fm ms k0 Hs)).
-  unfold eoi_tokens. generalize (iter_num ms 0).
-  induction k0 as [|k0' IH]; intros num; cbn [iter_eois map repeat]; [reflexivity|].
-  destruct k0' as [|k0'']; [reflexivity|]. rewrite IH by lia. reflexivity.
+  unfold eoi_tokens, eoi_tokens_old. generalize (iter_num ms 0). generalize (Nat.max 1 k0).
+  intros k. induction k as [|k IH]; intros num; cbn [iter_eois map repeat]; [reflexivity|].
+  rewrite IH. reflexivity.
 Qed.
 
 (** ** LL parser: how [LLKParser::parse_into] drives the stream
@@ -1191,14 +1244,13 @@ Proof. intros H. rewrite !stream_refines_spec. apply skip_irrelevant_ll_spec. ex
 (** Instance: compare token types.  The parser input is [parser_input]; with built-in skip
     tokens only it is the filtered list of match types ([parser_input_builtin]). *)
 Corollary skip_irrelevant_ll_types skips1 len1 fm1 ms1 skips2 len2 fm2 ms2 k0 lops :
-  (1 <= k0)%nat ->
   is_state_skip skips1 EOI fm1 = false -> is_state_skip skips2 EOI fm2 = false ->
   parser_input skips1 ms1 = parser_input skips2 ms2 ->
   observations N t_type (run skips1 (stream_new skips1 len1 fm1 ms1 k0) (ll_sched lops)) =
   observations N t_type (run skips2 (stream_new skips2 len2 fm2 ms2 k0) (ll_sched lops)).
 Proof.
-  intros Hk H1 H2 H. apply skip_irrelevant_ll. unfold same_view.
-  rewrite (stream_view_types skips1 len1 fm1 ms1 k0 Hk H1), (stream_view_types skips2 len2 fm2 ms2 k0 Hk H2), H.
+  intros H1 H2 H. apply skip_irrelevant_ll. unfold same_view.
+  rewrite (stream_view_types skips1 len1 fm1 ms1 k0 H1), (stream_view_types skips2 len2 fm2 ms2 k0 H2), H.
   reflexivity.
 Qed.
 
@@ -1267,8 +1319,9 @@ Proof. unfold stack_leaves. cbn [rev]. rewrite flat_map_app. reflexivity. Qed.
 
 Section LRStack.
 
-(** The skip predicate used by [call_action], in BOTH places.  Rust: [is_skip_token];
-    repaired: [is_effectively_skip_token]. *)
+(** The skip predicate used by [call_action], in BOTH places.  Current code:
+    [is_effectively_skip_token] ([lr_skip_pred]); pinned commit: [is_skip_token]
+    ([lr_skip_pred_old]). *)
 Variable P : token -> bool.
 
 (** The closure given to [pop_n] / the negated filter on the children. *)
@@ -1579,10 +1632,26 @@ End LRViews.
 
 (** *** [skip_irrelevant_lr], [lr_skip_listed_ok], [lr_skip_listed_refuted] *)
 
+(** [call_action]'s predicate in the current code and at the pinned commit. *)
+Definition lr_skip_pred : token -> bool := is_effectively_skip_token.
+Definition lr_skip_pred_old : token -> bool := is_skip_token.
+
+(** The LR loop on the buffered stream: current code / pinned commit.  ([real_impl] has no
+    predicate in it; [real_impl_old] is the same stream implementation, named for symmetry.) *)
+Definition real_impl_old : list (list N) -> impl stream := real_impl.
+
+Definition lr_parse (skips : list (list N)) (its : list lr_iter) (st : stream)
+  : lr_conf stream * list lr_obs :=
+  lr_run lr_skip_pred stream (real_impl skips) its (st, [], []).
+
+Definition lr_parse_old (skips : list (list N)) (its : list lr_iter) (st : stream)
+  : lr_conf stream * list lr_obs :=
+  lr_run lr_skip_pred_old stream (real_impl_old skips) its (st, [], []).
+
 Lemma stream_tokens_no_flags skips len fm ms k0 : no_skip_lists skips ->
   Forall (fun t => t_state_skip t = false) (stream_tokens skips len fm ms k0).
 Proof.
-  intros H. unfold stream_tokens. apply gapped_Forall; [reflexivity|].
+  intros H. unfold stream_tokens, stream_tokens_old. apply gapped_Forall; [reflexivity|].
   apply Forall_forall. intros t Ht. apply in_map_iff in Ht. destruct Ht as (mt & E & _). subst t.
   cbn. apply no_skip_lists_state_skip. exact H.
 Qed.
@@ -1607,8 +1676,9 @@ Proof.
   unfold lr_view; cbn [lc_stream lc_stack fst snd]. repeat split; assumption.
 Qed.
 
-(** [skip_irrelevant_lr]: the Rust [call_action] ([is_skip_token]) with built-in skip tokens only
-    (no entries in the skip lists). *)
+(** [skip_irrelevant_lr]: [call_action] with the predicate of the pinned commit
+    ([is_skip_token] = [lr_skip_pred_old]) and built-in skip tokens only (no entries in the skip
+    lists; then both predicates coincide).  For the current code see [lr_skip_listed_ok]. *)
 Theorem skip_irrelevant_lr (A : Type) (proj : token -> A)
     skips1 len1 fm1 ms1 skips2 len2 fm2 ms2 k0 its :
   no_skip_lists skips1 -> no_skip_lists skips2 ->
@@ -1623,8 +1693,9 @@ Proof.
     intros t Ht. unfold is_effectively_skip_token. rewrite Ht, orb_false_r. reflexivity.
 Qed.
 
-(** [lr_skip_listed_ok]: with the repaired predicate ([is_effectively_skip_token] in both places
-    of [call_action]) the statement holds for arbitrary skip lists. *)
+(** [lr_skip_listed_ok]: the CURRENT code ([is_effectively_skip_token] = [lr_skip_pred] in both
+    places of [call_action]): the statement holds for arbitrary skip lists.
+    ([snd (lr_parse skips its st)] is this [lr_run] by definition.) *)
 Theorem lr_skip_listed_ok (A : Type) (proj : token -> A)
     skips1 len1 fm1 ms1 skips2 len2 fm2 ms2 k0 its :
   same_view A proj (stream_tokens skips1 len1 fm1 ms1 k0) (stream_tokens skips2 len2 fm2 ms2 k0) ->
@@ -1650,33 +1721,39 @@ Definition action_args (obs : list lr_obs) : list (list N) :=
                      | LObsArgs l => [flat_map (fun a => match a with ArgT t => [t_type t] | ArgN _ => [] end) l]
                      | _ => [] end) obs.
 
-(** The Rust predicate: the action for [S: a b] gets the tokens (c, b). *)
+(** Pinned commit: the action for [S: a b] gets the tokens (c, b). *)
 Example d9_actual_args :
-  action_args (snd (lr_run is_skip_token stream (real_impl d9_skips) d9_its
-                      (stream_new d9_skips 3 0 d9_acb 1, [], []))) = [[7%N; 6%N]].
+  action_args (snd (lr_parse_old d9_skips d9_its (stream_new_old d9_skips 3 0 d9_acb 1))) = [[7%N; 6%N]].
 Proof. vm_compute. reflexivity. Qed.
 
-(** The repaired predicate: (a, b). *)
+(** Current code: (a, b). *)
 Example d9_repaired_args :
-  action_args (snd (lr_run is_effectively_skip_token stream (real_impl d9_skips) d9_its
-                      (stream_new d9_skips 3 0 d9_acb 1, [], []))) = [[5%N; 6%N]].
+  action_args (snd (lr_parse d9_skips d9_its (stream_new d9_skips 3 0 d9_acb 1))) = [[5%N; 6%N]].
 Proof. vm_compute. reflexivity. Qed.
 
-(** Both inputs present the same significant tokens to the parser, the LR automaton makes the
-    same moves - but the Rust [call_action] hands different arguments to the action. *)
+(** Pinned commit (D9): both inputs present the same significant tokens to the parser, the LR
+    automaton makes the same moves - but [call_action] with [is_skip_token] hands different
+    arguments to the action.  ([stream_tokens_old .. 1] and [stream_tokens .. 1] are the same
+    list, [stream_new_old .. 1] and [stream_new .. 1] the same stream.) *)
 Theorem lr_skip_listed_refuted :
   exists skips len1 ms1 len2 ms2 its,
-    same_view N t_type (stream_tokens skips len1 0 ms1 1) (stream_tokens skips len2 0 ms2 1) /\
+    same_view N t_type (stream_tokens_old skips len1 0 ms1 1) (stream_tokens_old skips len2 0 ms2 1) /\
     parser_input skips ms1 = parser_input skips ms2 /\
-    map (pobs N t_type) (snd (lr_run is_skip_token stream (real_impl skips) its
-                                (stream_new skips len1 0 ms1 1, [], []))) <>
-    map (pobs N t_type) (snd (lr_run is_skip_token stream (real_impl skips) its
-                                (stream_new skips len2 0 ms2 1, [], []))).
+    map (pobs N t_type) (snd (lr_run lr_skip_pred_old stream (real_impl_old skips) its
+                                (stream_new_old skips len1 0 ms1 1, [], []))) <>
+    map (pobs N t_type) (snd (lr_run lr_skip_pred_old stream (real_impl_old skips) its
+                                (stream_new_old skips len2 0 ms2 1, [], []))).
 Proof.
   exists d9_skips, 3%N, d9_acb, 2%N, d9_ab, d9_its.
   split; [vm_compute; reflexivity|]. split; [vm_compute; reflexivity|].
   vm_compute. intros H. discriminate H.
 Qed.
+
+(** The same witness is harmless for the current code. *)
+Example d9_current_ok :
+  map (pobs N t_type) (snd (lr_parse d9_skips d9_its (stream_new d9_skips 3 0 d9_acb 1))) =
+  map (pobs N t_type) (snd (lr_parse d9_skips d9_its (stream_new d9_skips 2 0 d9_ab 1))).
+Proof. vm_compute. reflexivity. Qed.
 
 (** *** The LR parse tree stack keeps every token ([pop_n] keeps interleaved skip tokens) *)
 Lemma comments_of_not_skip t : is_effectively_skip_token t = false -> comments_of [t] = [].
@@ -1753,26 +1830,41 @@ Proof.
 Qed.
 
 (** ** Lookahead size 0 (grammars without alternatives get [MAX_K = 0])
-    [TokenStream::new] hands the unchanged [k] to the [TokenIter], which then yields NO
-    end-of-input token; the stream (which uses [max(1,k)]) fills the buffer with
-    [Token::eoi(MAX)] at the default location.  Nothing is added at [input.len()], so unmatched
-    text at the very end of the input never becomes a gap token: the delivered tokens are not
-    lossless.  (With [k0 = 1] the same schedule delivers the gap token 1..2.) *)
+    PINNED COMMIT ([stream_new_old]): [TokenStream::new] handed the unchanged [k] to the
+    [TokenIter], which then yielded NO end-of-input token; the stream (which uses [max(1,k)])
+    filled the buffer with [Token::eoi(MAX)] at the default location.  Nothing was added at
+    [input.len()], so unmatched text at the very end of the input never became a gap token: the
+    delivered tokens were not lossless.  Repaired: [stream_new] creates the iterator with
+    [max(1,k)] and [buffer_contiguous] holds for every [k0]. *)
 Theorem buffer_contiguous_k0_refuted :
   exists skips len fm ms ops,
     matches_ok len ms = true /\
-    last (run skips (stream_new skips len fm ms 0) ops) (EvSkip []) = EvLook (inr eoi_filler) /\
-    ~ chain 0 (delivered (run skips (stream_new skips len fm ms 0) ops)) len.
+    last (run skips (stream_new_old skips len fm ms 0) ops) (EvSkip []) = EvLook (inr eoi_filler) /\
+    ~ chain 0 (delivered (run skips (stream_new_old skips len fm ms 0) ops)) len.
 Proof.
   exists [], 2%N, 0%N, [mkMatch 5 0 1 0], [OpTakeSkip; OpConsume; OpTakeSkip; OpLookahead 0].
   split; [reflexivity|]. split; [vm_compute; reflexivity|].
   vm_compute. intros (_ & _ & H). discriminate H.
 Qed.
 
+(** Current code, same input and schedule, [k0 = 0]: the gap token 1..2 is delivered and the
+    end-of-input token is at [input.len()]. *)
+Example k0_zero_delivers_gap :
+  delivered (run [] (stream_new [] 2 0 [mkMatch 5 0 1 0] 0) [OpTakeSkip; OpConsume; OpTakeSkip; OpLookahead 0])
+  = [mkTok 5 0 1 0 false; mkTok INVALID_TOKEN 1 2 1 false] /\
+  last (run [] (stream_new [] 2 0 [mkMatch 5 0 1 0] 0) [OpTakeSkip; OpConsume; OpTakeSkip; OpLookahead 0]) (EvSkip [])
+  = EvLook (inr (mkTok EOI 2 2 2 false)).
+Proof. split; vm_compute; reflexivity. Qed.
+
 Example k0_one_delivers_gap :
   delivered (run [] (stream_new [] 2 0 [mkMatch 5 0 1 0] 1) [OpTakeSkip; OpConsume; OpTakeSkip; OpLookahead 0])
   = [mkTok 5 0 1 0 false; mkTok INVALID_TOKEN 1 2 1 false].
 Proof. vm_compute. reflexivity. Qed.
+
+(** [stream_new] and [stream_new_old] are the same stream whenever [k0 >= 1]. *)
+Lemma stream_new_old_eq skips len fm ms k0 : (1 <= k0)%nat ->
+  stream_new_old skips len fm ms k0 = stream_new skips len fm ms k0.
+Proof. intros H. unfold stream_new_old, stream_new. replace (Nat.max 1 k0) with k0 by lia. reflexivity. Qed.
 
 (** ** Link to the parser models
     Runtime/LLParser.v ([ll_run]) and Runtime/LRParser.v ([lr_run]) take the list of significant
@@ -1900,6 +1992,9 @@ Example ex_d9_same_view :
 Proof. vm_compute. reflexivity. Qed.
 
 Print Assumptions stream_refines_spec.
+Print Assumptions stream_refines_spec_old.
+Print Assumptions comments_once_in_order_all_k.
+Print Assumptions comments_all_delivered_all_k.
 Print Assumptions buffer_contiguous.
 Print Assumptions stream_k_independent.
 Print Assumptions delivered_prefix.
